@@ -10,6 +10,7 @@ import (
 	"go/token"
 	"go/types"
 	"path/filepath"
+	"sort"
 	"strings"
 
 	"bmverif/internal/core"
@@ -625,4 +626,237 @@ func c17Abandon(r *core.Run, prog *core.Program, rels []string) {
 		}
 	}
 	r.Count("blocking_channel_ops_in_goroutines", n)
+}
+
+// ---- C04/FRESH ----------------------------------------------------------------------------------
+// bondmachine.VM.Step moves the handshake lines through per-endpoint tables: a source table is written,
+// a table derived from it (through Links, possibly through a local map) is rebuilt, the derived table
+// is read. A statement that reads a derived table after one of the tables it was derived from has been
+// written again — without the derivation in between — hands a stale valid/received line to a processor
+// or to the outside: a producer sees an acknowledge that belongs to the previous value (the value is
+// lost) or misses one (it is sent twice). The statement sequence of Step (one-line VM helper methods
+// inlined) is interpreted twice in a row, so that what one tick leaves behind is seen by the next.
+func c04Fresh(r *core.Run, prog *core.Program) {
+	pk := prog.Pkg("pkg/bondmachine")
+	if pk == nil {
+		return
+	}
+	info := pk.TypesInfo
+	decls := map[types.Object]*ast.FuncDecl{}
+	var step *ast.FuncDecl
+	core.FuncDecls(pk, func(_ *ast.File, fd *ast.FuncDecl) {
+		if o := info.Defs[fd.Name]; o != nil {
+			decls[o] = fd
+		}
+		if fd.Name.Name == "Step" && core.RecvTypeName(info, fd) == "VM" {
+			step = fd
+		}
+	})
+	if step == nil || step.Body == nil {
+		r.Undecided("C04/FRESH", "C04/FRESH:pkg/bondmachine.VM.Step", "", "VM.Step not found")
+		return
+	}
+	// the statement sequence, helper methods of VM inlined (depth 2)
+	var seq []ast.Stmt
+	var flatten func(stmts []ast.Stmt, depth int)
+	flatten = func(stmts []ast.Stmt, depth int) {
+		for _, s := range stmts {
+			if es, ok := s.(*ast.ExprStmt); ok && depth < 2 {
+				if call, ok := es.X.(*ast.CallExpr); ok {
+					if c := core.CalleeOf(info, call); c != nil {
+						if d, ok := decls[c]; ok && d.Body != nil && core.RecvTypeName(info, d) == "VM" {
+							flatten(d.Body.List, depth+1)
+							continue
+						}
+					}
+				}
+			}
+			if as, ok := s.(*ast.AssignStmt); ok && depth < 2 && len(as.Rhs) == 1 {
+				if call, ok := as.Rhs[0].(*ast.CallExpr); ok {
+					if c := core.CalleeOf(info, call); c != nil {
+						if d, ok := decls[c]; ok && d.Body != nil && core.RecvTypeName(info, d) == "VM" {
+							flatten(d.Body.List, depth+1)
+							continue
+						}
+					}
+				}
+			}
+			seq = append(seq, s)
+		}
+	}
+	flatten(step.Body.List, 0)
+	// nodes: slice/map fields of VM and slice/map locals
+	nodeOf := func(e ast.Expr) types.Object {
+		e = ast.Unparen(e)
+		if f := core.FieldOf(info, e); f != nil && core.IsField(f, "pkg/bondmachine", f.Name()) {
+			switch f.Type().Underlying().(type) {
+			case *types.Slice, *types.Map:
+				if f.Name() != "Processors" {
+					return f
+				}
+			}
+			return nil
+		}
+		if id, ok := e.(*ast.Ident); ok {
+			if v, ok := info.ObjectOf(id).(*types.Var); ok && !v.IsField() {
+				switch v.Type().Underlying().(type) {
+				case *types.Slice, *types.Map:
+					if b, ok := v.Type().Underlying().(*types.Map); ok {
+						if bb, ok := b.Elem().Underlying().(*types.Basic); ok && bb.Info()&types.IsString != 0 {
+							return nil // debug text
+						}
+					}
+					return v
+				}
+			}
+		}
+		return nil
+	}
+	type rw struct {
+		w, rd map[types.Object]bool
+		reset map[types.Object]bool
+	}
+	sets := make([]rw, len(seq))
+	for i, s := range seq {
+		cur := rw{map[types.Object]bool{}, map[types.Object]bool{}, map[types.Object]bool{}}
+		lhsRoots := map[ast.Expr]bool{}
+		ast.Inspect(s, func(m ast.Node) bool {
+			if as, ok := m.(*ast.AssignStmt); ok {
+				for li, l := range as.Lhs {
+					switch x := ast.Unparen(l).(type) {
+					case *ast.IndexExpr:
+						if n := nodeOf(x.X); n != nil {
+							cur.w[n] = true
+							lhsRoots[x.X] = true
+						}
+					default:
+						if n := nodeOf(l); n != nil {
+							lhsRoots[l] = true
+							// x = make(...) / x := make(...) resets the table
+							if li < len(as.Rhs) {
+								if call, ok := ast.Unparen(as.Rhs[li]).(*ast.CallExpr); ok {
+									if id, ok := call.Fun.(*ast.Ident); ok && id.Name == "make" {
+										cur.reset[n] = true
+										continue
+									}
+								}
+							}
+							cur.w[n] = true
+						}
+					}
+				}
+			}
+			return true
+		})
+		ast.Inspect(s, func(m ast.Node) bool {
+			if call, ok := m.(*ast.CallExpr); ok && len(call.Args) == 1 {
+				if id, ok := call.Fun.(*ast.Ident); ok && id.Name == "clear" {
+					if n := nodeOf(call.Args[0]); n != nil {
+						cur.reset[n] = true
+						lhsRoots[call.Args[0]] = true
+					}
+				}
+			}
+			return true
+		})
+		ast.Inspect(s, func(m ast.Node) bool {
+			e, ok := m.(ast.Expr)
+			if !ok || lhsRoots[e] {
+				return true
+			}
+			if n := nodeOf(e); n != nil {
+				// an ident that is the Sel of a selector is visited through the selector
+				cur.rd[n] = true
+			}
+			return true
+		})
+		sets[i] = cur
+	}
+	version := map[types.Object]int{}
+	srcs := map[types.Object]map[types.Object]int{}
+	bornStale := map[types.Object]string{}
+	reported := map[string]bool{}
+	nReads := 0
+	var staleRec func(n types.Object, seen map[types.Object]bool) string
+	staleRec = func(n types.Object, seen map[types.Object]bool) string {
+		if seen[n] {
+			return ""
+		}
+		seen[n] = true
+		if w, ok := bornStale[n]; ok {
+			return w
+		}
+		var names []string
+		for s := range srcs[n] {
+			names = append(names, s.Name())
+		}
+		sort.Strings(names)
+		for _, nm := range names {
+			for s, v := range srcs[n] {
+				if s.Name() != nm {
+					continue
+				}
+				if version[s] != v {
+					return s.Name()
+				}
+				if w := staleRec(s, seen); w != "" {
+					return w
+				}
+			}
+		}
+		return ""
+	}
+	staleWhy := func(n types.Object) string { return staleRec(n, map[types.Object]bool{}) }
+	for pass := 0; pass < 2; pass++ {
+		for i, s := range seq {
+			cur := sets[i]
+			for n := range cur.rd {
+				if cur.w[n] {
+					continue // accumulation into the table being built
+				}
+				nReads++
+				inst := fmt.Sprintf("C04/FRESH:pkg/bondmachine.VM.Step:%s", n.Name())
+				if why := staleWhy(n); why != "" && !reported[inst] {
+					reported[inst] = true
+					r.Violation("C04/FRESH", inst, prog.Pos(s.Pos()), fmt.Sprintf("VM.Step reads %s here although %s, from which it was derived, has been written since (tick %d of two consecutive ticks): the line handed on is the one of the previous value — a producer sees a stale acknowledge and its next value is lost, or misses one and repeats", n.Name(), why, pass+1))
+				}
+			}
+			for n := range cur.reset {
+				version[n]++
+				srcs[n] = map[types.Object]int{}
+				delete(bornStale, n)
+			}
+			for n := range cur.w {
+				version[n]++
+				m := map[types.Object]int{}
+				delete(bornStale, n)
+				for sN := range cur.rd {
+					if sN == n {
+						continue
+					}
+					m[sN] = version[sN]
+					if why := staleWhy(sN); why != "" {
+						bornStale[n] = why
+					}
+				}
+				if len(m) > 0 || srcs[n] == nil {
+					// keep sources from an earlier partial fill of the same derivation
+					for k, v := range srcs[n] {
+						if _, ok := m[k]; !ok && cur.reset[n] == false && version[k] == v {
+							m[k] = v
+						}
+					}
+					srcs[n] = m
+				}
+			}
+		}
+	}
+	for n := range version {
+		inst := fmt.Sprintf("C04/FRESH:pkg/bondmachine.VM.Step:%s", n.Name())
+		if !reported[inst] {
+			r.OK("C04/FRESH", inst, prog.Pos(step.Pos()), "never read after one of its sources was rewritten without re-deriving it")
+		}
+	}
+	r.Count("step_tables", len(version))
+	r.Count("step_table_reads", nReads)
 }
